@@ -20,9 +20,6 @@ Definition stripped (x : list N) : bool :=
   | c :: _ => negb (is_space c) && negb (is_space (last x 0))
   end.
 
-(* character c does not occur in s *)
-Definition lacks (c : N) (s : list N) : bool := negb (in_str c s).
-
 (* entirely ASCII digits *)
 Definition all_digit (s : list N) : bool := forallb is_digit s.
 
@@ -149,3 +146,11 @@ Definition time_expected (h mi : nat) : hline :=
   mkhl (s2l "TIME") [] (two_digits h ++ [58] ++ two_digits mi ++ s2l " 23-JAN-2001")
        (s2l "Time: At Bottom").
 Close Scope string_scope.
+
+(* paddings used by the non-vacuity examples of Props/C04.v *)
+Definition ex_p0 : list N := [32; 9].
+Definition ex_p1 : list N := [32].
+Definition ex_p2 : list N := [9; 32].
+Definition ex_p3 : list N := [32; 32].
+Definition ex_p4 : list N := [32].
+Definition ex_p5 : list N := [9].
